@@ -59,6 +59,8 @@ type verifMultiOp struct {
 	Snaps  []verifMultiSnapOp `json:"snaps"`
 	Faults []verifMultiFault  `json:"faults"`
 	Now    int                `json:"now"`
+	// NeedFault: do not run the change when none of the planned faults addresses a task (enumeration on one system)
+	NeedFault bool `json:"needFault,omitempty"`
 }
 
 type verifMultiStep struct {
@@ -310,16 +312,16 @@ func (s *verifMultiSuite) runMulti(c *check.C, op *verifMultiOp) {
 		s.multiEmit(map[string]interface{}{"ev": "MRequest", "op": op, "ok": false, "err": err.Error()}, true)
 		return
 	}
-	chg := st.NewChange(op.Kind, "verif "+op.Kind)
+	var allTasks []*state.Task
 	for _, ts := range tss {
-		chg.AddAll(ts)
+		allTasks = append(allTasks, ts.Tasks()...)
 	}
 	// group the tasks per snap (by their snap-setup), chain order by dependency depth
 	memo := map[string]int{}
 	bySnap := map[string][]*state.Task{}
 	var extras []*state.Task
 	owner := map[string]string{}
-	for _, t := range chg.Tasks() {
+	for _, t := range allTasks {
 		if snapsup, err := snapstate.TaskSnapSetup(t); err == nil && snapsup != nil {
 			owner[t.ID()] = snapsup.InstanceName()
 			continue
@@ -332,7 +334,7 @@ func (s *verifMultiSuite) runMulti(c *check.C, op *verifMultiOp) {
 		}
 	}
 	// tasks that carry no snap name (the test fixture's save-snapshot): the snap of a neighbour in the graph
-	for _, t := range chg.Tasks() {
+	for _, t := range allTasks {
 		if owner[t.ID()] != "" {
 			continue
 		}
@@ -343,7 +345,7 @@ func (s *verifMultiSuite) runMulti(c *check.C, op *verifMultiOp) {
 			}
 		}
 	}
-	for _, t := range chg.Tasks() {
+	for _, t := range allTasks {
 		if n := owner[t.ID()]; n != "" {
 			bySnap[n] = append(bySnap[n], t)
 		} else {
@@ -447,7 +449,16 @@ func (s *verifMultiSuite) runMulti(c *check.C, op *verifMultiOp) {
 		}
 		eff = append(eff, f)
 	}
+	if op.NeedFault && len(eff) == 0 {
+		// an enumerated fault position that does not exist (any more): nothing to try.  The task sets were not
+		// added to a change: they are never run.
+		return
+	}
 	op.Faults = eff
+	chg := st.NewChange(op.Kind, "verif "+op.Kind)
+	for _, ts := range tss {
+		chg.AddAll(ts)
+	}
 	s.mChg = chg
 	s.multiEmit(map[string]interface{}{"ev": "MRequest", "op": op, "ok": true, "graph": graph, "extra": extra, "strays": strays}, true)
 
@@ -561,6 +572,7 @@ func (s *verifMultiSuite) TestVerifMultiHistories(c *check.C) {
 		attempt := func(id string, faults []verifMultiFault) {
 			m := *last.Multi
 			m.Faults = faults
+			m.NeedFault = h.Chain && len(faults) > 0
 			if !h.Chain {
 				s.runMultiHistory(c, id, h.OnClassic, append(append([]verifMultiStep{}, prefix...), verifMultiStep{Multi: &m}))
 			} else {
